@@ -1,29 +1,56 @@
-//! C17 probe (development version): drives real PeerConnection pairs to a phase boundary, applies a
-//! terminating event, prints what the connection reports.
+//! C17 -- closing or losing a connection at any moment ends it cleanly and visibly.
+//!
+//! Real `PeerConnection` pairs over loopback (in-process signalling, optionally through a datagram relay that
+//! can starve DTLS or one direction) are driven to a phase boundary; a terminating event is applied to the
+//! endpoint under test ("A"); then the harness records
+//!   * what A reports (peer / ICE / signaling state, disconnect reason), per-channel Open/Close counts and
+//!     whether the event stream ended, the fate of a sender parked on a full window   -> compared with the
+//!     Coq model (Run/C17Run.v: the model must be able to come to rest in the same observables),
+//!   * the direct oracle, written from the property text, independent of the model: a terminal state and a
+//!     reason are reported, the reason never changes afterwards, no channel sees two Close events and every
+//!     channel of an ended connection sees exactly one, pending and subsequent API calls return within a
+//!     generous bound, and after the final close + drop every task of the scenario's own tokio runtime is
+//!     gone and every UDP port the two connections had bound is released within a bound.
+//! Each scenario runs on its own tokio runtime (so `num_alive_tasks` is per scenario); scenarios run in
+//! parallel on a small pool of OS threads.
+use rustrtc::media::frame::VideoFrame;
 use rustrtc::transports::sctp::{DataChannel, DataChannelConfig, DataChannelEvent};
 use rustrtc::{
     DisconnectReason, IceConnectionState, MediaKind, PeerConnection, PeerConnectionState, RtcConfiguration,
-    SdpType, SessionDescription, SignalingState, TransceiverDirection, TransportMode,
+    RtpCodecParameters, SdpType, SessionDescription, SignalingState, TransceiverDirection, TransportMode,
 };
+use serde_json::json;
 use std::net::SocketAddr;
 use std::sync::atomic::{AtomicU8, AtomicUsize, Ordering};
-use std::sync::Arc;
+use std::sync::{Arc, Mutex};
 use std::time::{Duration, Instant};
 use tokio::net::UdpSocket;
+use tokio::sync::watch;
+use vh::net::sctp_wire::{build_packet, Chunk};
+
+/// generous bound for "returns promptly" (observed latencies are below 1 ms)
+const CALL_BOUND: Duration = Duration::from_secs(2);
+/// bound for "what the connection reports has settled" after an event
+const SETTLE_MAX: Duration = Duration::from_secs(3);
+/// bound for task / socket release after the final close + drop (connectivity checks in flight end with the
+/// STUN timeout, configured to 1 s below)
+const RELEASE_BOUND: Duration = Duration::from_secs(5);
 
 fn cfg(mode: TransportMode) -> RtcConfiguration {
     let mut c = RtcConfiguration::default();
     c.bind_ip = Some("127.0.0.1".into());
     c.transport_mode = mode;
+    c.stun_timeout = Duration::from_secs(1);
     c
 }
 
 // ------------------------------------------------------------------------------------ relay
-/// two-socket datagram relay with a switchable filter
+/// two-socket datagram relay with a switchable filter (A talks to `a_face`, B talks to `b_face`)
 struct Relay {
-    a_face: SocketAddr, // A sends here
-    b_face: SocketAddr, // B sends here
-    mode: Arc<AtomicU8>, // 0 forward, 1 drop DTLS records, 2 drop everything, 3 drop A->B only
+    a_face: SocketAddr,
+    b_face: SocketAddr,
+    /// 0 forward, 1 drop DTLS records, 2 drop everything, 3 drop A->B only
+    mode: Arc<AtomicU8>,
     tasks: Vec<tokio::task::JoinHandle<()>>,
 }
 impl Relay {
@@ -53,7 +80,7 @@ impl Drop for Relay {
     fn drop(&mut self) { for t in &self.tasks { t.abort(); } }
 }
 
-fn cand_port(pc: &PeerConnection) -> Option<SocketAddr> {
+fn cand_addr(pc: &PeerConnection) -> Option<SocketAddr> {
     pc.ice_transport().local_candidates().first().map(|c| c.address)
 }
 fn rewrite_port(desc: &SessionDescription, ty: SdpType, to: SocketAddr) -> SessionDescription {
@@ -73,8 +100,20 @@ fn rewrite_port(desc: &SessionDescription, ty: SdpType, to: SocketAddr) -> Sessi
 // ------------------------------------------------------------------------------------ observation
 #[derive(Debug, Clone, PartialEq)]
 struct Obs { peer: PeerConnectionState, ice: IceConnectionState, sig: SignalingState, reason: Option<DisconnectReason> }
-fn obs(pc: &PeerConnection) -> Obs {
-    Obs { peer: *pc.subscribe_peer_state().borrow(), ice: *pc.subscribe_ice_connection_state().borrow(), sig: pc.signaling_state(), reason: pc.disconnect_reason() }
+/// watch receivers outlive the connection, so the last reported values stay readable after a drop
+struct Watch {
+    peer: watch::Receiver<PeerConnectionState>,
+    ice: watch::Receiver<IceConnectionState>,
+    sig: watch::Receiver<SignalingState>,
+    reason: watch::Receiver<Option<DisconnectReason>>,
+}
+impl Watch {
+    fn new(pc: &PeerConnection) -> Watch {
+        Watch { peer: pc.subscribe_peer_state(), ice: pc.subscribe_ice_connection_state(), sig: pc.subscribe_signaling_state(), reason: pc.subscribe_disconnect_reason() }
+    }
+    fn obs(&self) -> Obs {
+        Obs { peer: *self.peer.borrow(), ice: *self.ice.borrow(), sig: *self.sig.borrow(), reason: self.reason.borrow().clone() }
+    }
 }
 
 #[derive(Default)]
@@ -103,13 +142,12 @@ async fn wait_until<F: FnMut() -> bool>(mut f: F, max: Duration) -> Option<Durat
         tokio::time::sleep(Duration::from_millis(5)).await;
     }
 }
-
 async fn timed<T, F: std::future::Future<Output = T>>(f: F, max: Duration) -> (Option<T>, Duration) {
     let t0 = Instant::now();
     let r = tokio::time::timeout(max, f).await.ok();
     (r, t0.elapsed())
 }
-
+fn tasks() -> usize { tokio::runtime::Handle::current().metrics().num_alive_tasks() }
 fn udp_ports_bound() -> std::collections::HashSet<u16> {
     let mut s = std::collections::HashSet::new();
     for f in ["/proc/net/udp", "/proc/net/udp6"] {
@@ -128,270 +166,735 @@ fn udp_ports_bound() -> std::collections::HashSet<u16> {
     s
 }
 
-async fn local_offer(pc: &PeerConnection) -> SessionDescription {
-    let _ = pc.create_offer().await.unwrap();
+async fn local_offer(pc: &PeerConnection) -> Result<SessionDescription, String> {
+    let _ = pc.create_offer().await.map_err(|e| e.to_string())?;
     pc.wait_for_gathering_complete().await;
-    let o = pc.create_offer().await.unwrap();
-    pc.set_local_description(o.clone()).unwrap();
-    o
+    let o = pc.create_offer().await.map_err(|e| e.to_string())?;
+    pc.set_local_description(o.clone()).map_err(|e| e.to_string())?;
+    Ok(o)
 }
-async fn local_answer(pc: &PeerConnection) -> SessionDescription {
-    let _ = pc.create_answer().await.unwrap();
+async fn local_answer(pc: &PeerConnection) -> Result<SessionDescription, String> {
+    let _ = pc.create_answer().await.map_err(|e| e.to_string())?;
     pc.wait_for_gathering_complete().await;
-    let a = pc.create_answer().await.unwrap();
-    pc.set_local_description(a.clone()).unwrap();
-    a
+    let a = pc.create_answer().await.map_err(|e| e.to_string())?;
+    pc.set_local_description(a.clone()).map_err(|e| e.to_string())?;
+    Ok(a)
 }
-
 fn dc_cfg() -> DataChannelConfig {
     DataChannelConfig { label: "neg".into(), negotiated: Some(0), ordered: true, ..Default::default() }
 }
 
+// ------------------------------------------------------------------------------------ scenarios
+#[derive(Clone, Copy, Debug, PartialEq, Eq, Hash)]
+enum Phase { Created, Gathering, OfferSet, Checking, DtlsHandshaking, DtlsConnected, ChannelsOpen, MediaFlowing, RtpCreated, RtpFlowing }
+impl Phase {
+    fn model(self) -> &'static str {
+        match self {
+            Phase::Created | Phase::Gathering | Phase::RtpCreated => "PhCreated",
+            Phase::OfferSet => "PhOfferSet",
+            Phase::Checking => "PhChecking",
+            Phase::DtlsHandshaking => "PhDtlsHandshaking",
+            Phase::DtlsConnected => "PhDtlsConnected",
+            Phase::ChannelsOpen | Phase::MediaFlowing => "PhChannelsOpen",
+            Phase::RtpFlowing => "PhDirectConnected",
+        }
+    }
+    fn has_channel(self) -> bool { !matches!(self, Phase::DtlsConnected | Phase::RtpFlowing) }
+    fn mode(self) -> TransportMode { if matches!(self, Phase::RtpCreated | Phase::RtpFlowing) { TransportMode::Rtp } else { TransportMode::WebRtc } }
+}
+#[derive(Clone, Copy, Debug, PartialEq, Eq, Hash)]
+enum Ev {
+    Close, Drop, CloseTwice, CloseThenDrop, CloseNotify, Abort, ShutdownAck, ShutdownThenComplete, ShutdownAlone,
+    IceStop, IceStopThenClose, PeerClose, PeerDrop, RaceCloseNotify, RaceCloseAbort, RaceCloseClose,
+    BlockedThenClose, BlockedThenAbort, BlockedThenCloseNotify,
+}
+impl Ev {
+    /// the stimuli as the model sees them (threads of `option event`; None = the harness waited)
+    fn threads(self, phase: Phase) -> String {
+        let t = |xs: &[&str]| format!("[{}]", xs.join("; "));
+        match self {
+            Ev::Close => format!("[{}]", t(&["Some Close"])),
+            // a drop that lands while start_dtls holds its own reference is deferred until the handshake ends
+            Ev::Drop if phase == Phase::DtlsHandshaking => format!("[{}]", t(&["Some Drop", "None", "Some DtlsDone"])),
+            Ev::Drop => format!("[{}]", t(&["Some Drop"])),
+            Ev::CloseTwice => format!("[{}]", t(&["Some Close", "Some Close"])),
+            Ev::CloseThenDrop => format!("[{}]", t(&["Some Close", "Some Drop"])),
+            Ev::CloseNotify => format!("[{}]", t(&["Some PeerCloseNotify"])),
+            Ev::Abort => format!("[{}]", t(&["Some SctpAbort"])),
+            Ev::ShutdownAck => format!("[{}]", t(&["Some SctpShutdownAck"])),
+            Ev::ShutdownThenComplete => format!("[{}]", t(&["Some SctpShutdown", "None", "Some SctpShutdownComplete"])),
+            Ev::ShutdownAlone => format!("[{}]", t(&["Some SctpShutdown"])),
+            Ev::IceStop => format!("[{}]", t(&["Some IceStop"])),
+            Ev::IceStopThenClose => format!("[{}]", t(&["Some IceStop", "None", "Some Close"])),
+            // a rustrtc peer that closes or vanishes sends nothing A could act on within the window
+            Ev::PeerClose | Ev::PeerDrop => "[]".into(),
+            Ev::RaceCloseNotify => format!("[{}; {}]", t(&["Some Close"]), t(&["Some PeerCloseNotify"])),
+            Ev::RaceCloseAbort => format!("[{}; {}]", t(&["Some Close"]), t(&["Some SctpAbort"])),
+            Ev::RaceCloseClose => format!("[{}; {}]", t(&["Some Close"]), t(&["Some Close"])),
+            Ev::BlockedThenClose => format!("[{}]", t(&["Some WindowFull", "Some SenderEnter", "None", "Some Close"])),
+            Ev::BlockedThenAbort => format!("[{}]", t(&["Some WindowFull", "Some SenderEnter", "None", "Some SctpAbort"])),
+            Ev::BlockedThenCloseNotify => format!("[{}]", t(&["Some WindowFull", "Some SenderEnter", "None", "Some PeerCloseNotify"])),
+        }
+    }
+    fn blocked(self) -> bool { matches!(self, Ev::BlockedThenClose | Ev::BlockedThenAbort | Ev::BlockedThenCloseNotify) }
+    /// the application itself closed or dropped A as part of the event
+    fn app_closed(self) -> bool {
+        matches!(self, Ev::Close | Ev::Drop | Ev::CloseTwice | Ev::CloseThenDrop | Ev::IceStopThenClose | Ev::RaceCloseNotify | Ev::RaceCloseAbort | Ev::RaceCloseClose | Ev::BlockedThenClose)
+    }
+    /// a lower layer ended the connection: a visible end is demanded without any application call
+    fn lower_end(self) -> bool {
+        matches!(self, Ev::CloseNotify | Ev::Abort | Ev::ShutdownAck | Ev::ShutdownThenComplete | Ev::IceStop | Ev::BlockedThenAbort | Ev::BlockedThenCloseNotify)
+    }
+    /// the connection's channels are ended by the event (each must have seen its one Close)
+    fn ends_assoc(self) -> bool { self.app_closed() || self.lower_end() }
+    fn drops_a(self) -> bool { matches!(self, Ev::Drop | Ev::CloseThenDrop) }
+}
 
-struct Pair {
-    a: PeerConnection, b: PeerConnection,
-    dca: Option<Arc<DataChannel>>, dcb: Option<Arc<DataChannel>>,
-    ca: Option<Arc<ChanCount>>, cb: Option<Arc<ChanCount>>,
+#[derive(Clone, Debug)]
+struct Scenario { phase: Phase, ev: Ev, jitter_ms: u64, kind: &'static str }
+
+#[derive(Default)]
+struct Outcome {
+    setup_failed: Option<String>,
+    panicked: bool,
+    before: Option<Obs>,
+    after: Option<Obs>,
+    final_obs: Option<Obs>,
+    chan: Option<(usize, usize, usize)>, // opens, closes, ended (after the event)
+    chan_final: Option<(usize, usize, usize)>,
+    sender: u8, // 0 none 1 err 2 ok 3 parked
+    sender_latency_ms: Option<f64>,
+    calls: Vec<(String, Option<String>, f64)>, // name, result (None = did not return within the bound), ms
+    settle_ms: f64,
+    tasks_before_event: usize,
+    tasks_after_release: usize,
+    release_ms: Option<f64>,
+    ports: Vec<u16>,
+    ports_still_bound: Vec<u16>,
+    notes: Vec<String>,
+}
+
+struct Setup {
+    a: Option<PeerConnection>,
+    b: Option<PeerConnection>,
+    wa: Watch,
+    dca: Option<Arc<DataChannel>>,
+    dcb: Option<Arc<DataChannel>>,
+    ca: Option<Arc<ChanCount>>,
+    cb: Option<Arc<ChanCount>>,
     hs: Vec<tokio::task::JoinHandle<()>>,
     relay: Option<Relay>,
+    hole: Option<UdpSocket>,
+    ports: Vec<u16>,
+    media: Option<tokio::task::JoinHandle<()>>,
 }
-struct PairOpts { mode: TransportMode, dc: bool, media: bool, relay: bool, relay_mode: u8, cfg_a: Option<RtcConfiguration> }
-impl Default for PairOpts { fn default() -> Self { PairOpts { mode: TransportMode::WebRtc, dc: true, media: false, relay: false, relay_mode: 0, cfg_a: None } } }
 
-async fn make_pair(o: PairOpts) -> Pair {
-    let a = PeerConnection::new(o.cfg_a.clone().unwrap_or_else(|| cfg(o.mode.clone())));
-    let b = PeerConnection::new(cfg(o.mode.clone()));
-    let mut p = Pair { a, b, dca: None, dcb: None, ca: None, cb: None, hs: vec![], relay: None };
-    if o.dc {
-        let dca = p.a.create_data_channel("neg", Some(dc_cfg())).unwrap();
-        let dcb = p.b.create_data_channel("neg", Some(dc_cfg())).unwrap();
+async fn negotiate(a: &PeerConnection, b: &PeerConnection, relay_mode: Option<u8>) -> Result<Option<Relay>, String> {
+    let offer = local_offer(a).await?;
+    match relay_mode {
+        Some(m) => {
+            // B must have gathered before the relay can be built: a throw-away offer starts gathering
+            let _ = b.create_offer().await.map_err(|e| e.to_string())?;
+            b.wait_for_gathering_complete().await;
+            let r = Relay::new(cand_addr(a).ok_or("no candidate")?, cand_addr(b).ok_or("no candidate")?).await;
+            r.mode.store(m, Ordering::SeqCst);
+            b.set_remote_description(rewrite_port(&offer, SdpType::Offer, r.b_face)).await.map_err(|e| e.to_string())?;
+            let answer = local_answer(b).await?;
+            a.set_remote_description(rewrite_port(&answer, SdpType::Answer, r.a_face)).await.map_err(|e| e.to_string())?;
+            Ok(Some(r))
+        }
+        None => {
+            b.set_remote_description(offer).await.map_err(|e| e.to_string())?;
+            let answer = local_answer(b).await?;
+            a.set_remote_description(answer).await.map_err(|e| e.to_string())?;
+            Ok(None)
+        }
+    }
+}
+
+fn add_media(a: &PeerConnection, b: &PeerConnection) -> tokio::task::JoinHandle<()> {
+    let (source, track, _) = rustrtc::media::track::sample_track(rustrtc::media::frame::MediaKind::Video, 100);
+    let params = RtpCodecParameters { payload_type: 96, name: "VP8".to_string(), clock_rate: 90000, channels: 0 };
+    let _ = a.add_track(track, params).unwrap();
+    b.add_transceiver(MediaKind::Video, TransceiverDirection::RecvOnly);
+    tokio::spawn(async move {
+        let mut seq = 0u32;
+        loop {
+            let frame = VideoFrame { rtp_timestamp: seq.wrapping_mul(3000), data: bytes::Bytes::from(vec![seq as u8; 100]), is_last_packet: true, ..Default::default() };
+            if source.send_video(frame).is_err() { break; }
+            seq += 1;
+            tokio::time::sleep(Duration::from_millis(10)).await;
+        }
+    })
+}
+
+/// bring a fresh pair to the phase; Err = the phase could not be reached (retried by the caller)
+async fn setup(phase: Phase, ev: Ev) -> Result<Setup, String> {
+    let mode = phase.mode();
+    let mut ca_cfg = cfg(mode.clone());
+    if ev.blocked() { ca_cfg.sctp_max_buffered_amount = 4096; }
+    let a = PeerConnection::new(ca_cfg);
+    let wa = Watch::new(&a);
+    let mut s = Setup { a: None, b: None, wa, dca: None, dcb: None, ca: None, cb: None, hs: vec![], relay: None, hole: None, ports: vec![], media: None };
+    let with_dc = phase.has_channel();
+    if with_dc {
+        let dca = a.create_data_channel("neg", Some(dc_cfg())).map_err(|e| e.to_string())?;
         let (ca, ha) = collect(dca.clone());
-        let (cb, hb) = collect(dcb.clone());
-        p.dca = Some(dca); p.dcb = Some(dcb); p.ca = Some(ca); p.cb = Some(cb); p.hs.push(ha); p.hs.push(hb);
+        s.dca = Some(dca); s.ca = Some(ca); s.hs.push(ha);
     }
-    if o.media || !o.dc {
-        p.a.add_transceiver(MediaKind::Audio, TransceiverDirection::SendRecv);
-        p.b.add_transceiver(MediaKind::Audio, TransceiverDirection::SendRecv);
+    match phase {
+        Phase::Created | Phase::RtpCreated => {}
+        Phase::Gathering => { let _ = a.create_offer().await.map_err(|e| e.to_string())?; }
+        Phase::OfferSet => { let _ = local_offer(&a).await?; }
+        Phase::Checking => {
+            let b = PeerConnection::new(cfg(mode.clone()));
+            let dcb = b.create_data_channel("neg", Some(dc_cfg())).map_err(|e| e.to_string())?;
+            let offer = local_offer(&a).await?;
+            b.set_remote_description(offer).await.map_err(|e| e.to_string())?;
+            let answer = local_answer(&b).await?;
+            if let Some(p) = cand_addr(&b) { s.ports.push(p.port()); }
+            b.close();
+            drop(dcb);
+            drop(b);
+            let hole = UdpSocket::bind("127.0.0.1:0").await.unwrap();
+            a.set_remote_description(rewrite_port(&answer, SdpType::Answer, hole.local_addr().unwrap())).await.map_err(|e| e.to_string())?;
+            s.hole = Some(hole);
+            let w = &s.wa;
+            if wait_until(|| w.obs().ice == IceConnectionState::Checking, Duration::from_secs(2)).await.is_none() {
+                s.a = Some(a);
+                teardown_quiet(s).await;
+                return Err("never reached ICE checking".into());
+            }
+        }
+        Phase::DtlsHandshaking | Phase::DtlsConnected | Phase::ChannelsOpen | Phase::MediaFlowing | Phase::RtpFlowing => {
+            let b = PeerConnection::new(cfg(mode.clone()));
+            if with_dc {
+                let dcb = b.create_data_channel("neg", Some(dc_cfg())).map_err(|e| e.to_string())?;
+                let (cb, hb) = collect(dcb.clone());
+                s.dcb = Some(dcb); s.cb = Some(cb); s.hs.push(hb);
+            }
+            if matches!(phase, Phase::DtlsConnected) {
+                a.add_transceiver(MediaKind::Audio, TransceiverDirection::SendRecv);
+                b.add_transceiver(MediaKind::Audio, TransceiverDirection::SendRecv);
+            }
+            if matches!(phase, Phase::MediaFlowing | Phase::RtpFlowing) { s.media = Some(add_media(&a, &b)); }
+            let relay_mode = if phase == Phase::DtlsHandshaking { Some(1) } else if ev.blocked() { Some(0) } else { None };
+            match negotiate(&a, &b, relay_mode).await {
+                Ok(r) => s.relay = r,
+                Err(e) => { s.b = Some(b); s.a = Some(a); teardown_quiet(s).await; return Err(e); }
+            }
+            if phase == Phase::DtlsHandshaking {
+                let w = &s.wa;
+                if wait_until(|| matches!(w.obs().ice, IceConnectionState::Connected | IceConnectionState::Completed), Duration::from_secs(5)).await.is_none() {
+                    s.b = Some(b); s.a = Some(a);
+                    teardown_quiet(s).await;
+                    return Err("ICE never connected through the relay".into());
+                }
+                // let start_dtls begin
+                let a2 = a.clone();
+                let _ = wait_until(|| a2.verif_dtls_transport().is_some(), Duration::from_secs(2)).await;
+                drop(a2);
+                tokio::time::sleep(Duration::from_millis(30)).await;
+            } else {
+                let (r, _) = timed(async { tokio::try_join!(a.wait_for_connected(), b.wait_for_connected()) }, Duration::from_secs(8)).await;
+                let mut ok = matches!(r, Some(Ok(_)));
+                if ok && with_dc {
+                    // known race outside C17 (set_remote_description stores the description after starting ICE): no SCTP
+                    if a.sctp_diagnostic_info().is_none() || b.sctp_diagnostic_info().is_none() { ok = false; }
+                    else {
+                        let (ca, cb) = (s.ca.clone().unwrap(), s.cb.clone().unwrap());
+                        ok = wait_until(|| ca.open.load(Ordering::SeqCst) > 0 && cb.open.load(Ordering::SeqCst) > 0, Duration::from_secs(4)).await.is_some();
+                    }
+                }
+                if !ok {
+                    s.b = Some(b); s.a = Some(a);
+                    teardown_quiet(s).await;
+                    return Err("pair did not reach the phase".into());
+                }
+                if phase == Phase::MediaFlowing {
+                    let _ = a.send_data(0, b"hello").await;
+                    let _ = b.send_data(0, b"world").await;
+                }
+                if matches!(phase, Phase::MediaFlowing | Phase::RtpFlowing) { tokio::time::sleep(Duration::from_millis(60)).await; }
+            }
+            if let Some(p) = cand_addr(&b) { s.ports.push(p.port()); }
+            s.b = Some(b);
+        }
     }
-    let offer = local_offer(&p.a).await;
-    if o.relay {
-        // B must gather before the relay exists: kick gathering with a throw-away offer
-        let _ = p.b.create_offer().await.unwrap();
-        p.b.wait_for_gathering_complete().await;
-        let ra = cand_port(&p.a).unwrap();
-        let rb = cand_port(&p.b).unwrap();
-        let r = Relay::new(ra, rb).await;
-        r.mode.store(o.relay_mode, Ordering::SeqCst);
-        let offer_b = rewrite_port(&offer, SdpType::Offer, r.b_face);
-        p.b.set_remote_description(offer_b).await.unwrap();
-        let answer = local_answer(&p.b).await;
-        let answer_a = rewrite_port(&answer, SdpType::Answer, r.a_face);
-        p.a.set_remote_description(answer_a).await.unwrap();
-        p.relay = Some(r);
-    } else {
-        p.b.set_remote_description(offer).await.unwrap();
-        let answer = local_answer(&p.b).await;
-        p.a.set_remote_description(answer).await.unwrap();
-    }
-    p
+    if let Some(p) = cand_addr(&a) { s.ports.push(p.port()); }
+    s.a = Some(a);
+    Ok(s)
 }
-async fn connected_pair(mk: impl Fn() -> PairOpts) -> Pair {
-    for _ in 0..8 {
-        let p = make_pair(mk()).await;
-        if wait_connected(&p).await { return p; }
-        p.a.close(); p.b.close();
-        for h in &p.hs { h.abort(); }
-    }
-    panic!("could not build a connected pair");
-}
-async fn wait_connected(p: &Pair) -> bool {
-    let (r, _) = timed(async { tokio::try_join!(p.a.wait_for_connected(), p.b.wait_for_connected()) }, Duration::from_secs(10)).await;
-    let ok = matches!(r, Some(Ok(_)));
-    if ok && p.ca.is_some() && p.a.sctp_diagnostic_info().is_none() { return false; } // set_remote_description race: DTLS started before the remote description was stored
-    if ok && p.ca.is_some() {
-        let (ca, cb) = (p.ca.clone().unwrap(), p.cb.clone().unwrap());
-        wait_until(|| ca.open.load(Ordering::SeqCst) > 0 && cb.open.load(Ordering::SeqCst) > 0, Duration::from_secs(5)).await.is_some()
-    } else { ok }
-}
-fn cc(c: &Option<Arc<ChanCount>>) -> String {
-    match c { Some(c) => format!("open={} close={} ended={}", c.open.load(Ordering::SeqCst), c.close.load(Ordering::SeqCst), c.ended.load(Ordering::SeqCst)), None => "-".into() }
-}
-fn tasks() -> usize { tokio::runtime::Handle::current().metrics().num_alive_tasks() }
 
-use vh::net::sctp_wire::{build_packet, Chunk};
+async fn teardown_quiet(mut s: Setup) {
+    if let Some(a) = s.a.take() { a.close(); }
+    if let Some(b) = s.b.take() { b.close(); }
+    for h in &s.hs { h.abort(); }
+    if let Some(m) = s.media.take() { m.abort(); }
+    drop(s);
+    let _ = wait_until(|| tasks() == 0, Duration::from_secs(3)).await;
+}
+
 async fn inject_sctp(from: &PeerConnection, ty: u8) -> bool {
     let Some(d) = from.verif_dtls_transport() else { return false };
     let pkt = build_packet(5000, 5000, 0, &[Chunk { ty, flags: 0, value: vec![] }]);
     d.send(bytes::Bytes::from(pkt)).await.is_ok()
 }
 
-async fn x_peer_events() {
-    for ev in ["close_notify", "abort", "shutdown", "shutdown_ack", "peer_close", "peer_drop"] {
-        let p = connected_pair(PairOpts::default).await;
-        let ok = true;
-        let t0 = tasks();
-        match ev {
-            "close_notify" => { p.b.verif_dtls_transport().unwrap().close(); }
-            "abort" => { inject_sctp(&p.b, 6).await; }
-            "shutdown" => { inject_sctp(&p.b, 7).await; }
-            "shutdown_ack" => { inject_sctp(&p.b, 8).await; }
-            "peer_close" => { p.b.close(); }
-            _ => {}
-        }
-        let Pair { a, b, ca, cb, hs, dca, dcb, .. } = p;
-        if ev == "peer_drop" { drop(b); drop(dcb); } else { std::mem::forget(dcb); std::mem::forget(b); }
-        tokio::time::sleep(Duration::from_millis(700)).await;
-        println!("[{}] connected={} A {:?} chanA {} tasks {}->{}", ev, ok, obs(&a), cc(&ca), t0, tasks());
-        let (r, d) = timed(a.send_data(0, b"x"), Duration::from_secs(2)).await;
-        println!("     send_data -> {:?} {:?}", r.map(|x| x.map_err(|e| e.to_string())), d);
-        a.close();
-        tokio::time::sleep(Duration::from_millis(300)).await;
-        println!("     after close A {:?} chanA {} tasks {}", obs(&a), cc(&ca), tasks());
-        let _ = (cb, dca);
-        for h in hs { h.abort(); }
-    }
+fn ms(d: Duration) -> f64 { (d.as_secs_f64() * 1e6).round() / 1e3 }
+fn cc(c: &Option<Arc<ChanCount>>) -> Option<(usize, usize, usize)> {
+    c.as_ref().map(|c| (c.open.load(Ordering::SeqCst), c.close.load(Ordering::SeqCst), c.ended.load(Ordering::SeqCst)))
 }
 
-async fn x_handshaking_close() {
-    for ev in ["close", "drop", "close_drop"] {
-        let t00 = tasks();
-        let p = make_pair(PairOpts { relay: true, relay_mode: 1, ..Default::default() }).await;
-        let a = p.a.clone();
-        let d = wait_until(|| matches!(obs(&a).ice, IceConnectionState::Connected | IceConnectionState::Completed), Duration::from_secs(5)).await;
-        tokio::time::sleep(Duration::from_millis(200)).await;
-        println!("[hs {}] ice connected after {:?}: A {:?} dtls={:?} tasks={}", ev, d, obs(&a), a.verif_dtls_transport().map(|d| format!("{}", d.get_state())), tasks());
-        drop(a);
-        let Pair { a, b, hs, dca, dcb, relay, ca, .. } = p;
+async fn run_scenario(sc: Scenario) -> Outcome {
+    let mut out = Outcome::default();
+    let mut s = None;
+    let mut last_err = String::new();
+    for _ in 0..6 {
+        match setup(sc.phase, sc.ev).await {
+            Ok(x) => { s = Some(x); break; }
+            Err(e) => { last_err = e; }
+        }
+    }
+    let Some(mut s) = s else { out.setup_failed = Some(last_err); return out; };
+    out.ports = s.ports.clone();
+    let ev = sc.ev;
+    let a = s.a.take().unwrap();
+    // pending calls started before the event
+    let pa = a.clone();
+    let pending_recv = tokio::spawn(async move { let _ = pa.recv().await; });
+    let pending_wait = if matches!(sc.phase, Phase::Checking | Phase::DtlsHandshaking | Phase::OfferSet) {
         let pa = a.clone();
-        let pend = tokio::spawn(async move { pa.wait_for_connected().await.is_ok() });
-        tokio::time::sleep(Duration::from_millis(20)).await;
-        b.close(); drop(b); drop(dcb); drop(relay);
-        if ev != "drop" { a.close(); }
-        println!("     A after event {:?}", if ev != "drop" { Some(obs(&a)) } else { None });
-        tokio::time::sleep(Duration::from_millis(300)).await;
-        println!("     +300ms {:?} pending wait_for_connected finished={}", obs(&a), pend.is_finished());
-        pend.abort();
-        for h in hs { h.abort(); }
-        drop(a); drop(dca); drop(ca);
-        let d = wait_until(|| tasks() <= t00, Duration::from_secs(3)).await;
-        println!("     after drop: tasks {} (baseline {}) settled={:?}", tasks(), t00, d);
-    }
-}
-
-async fn x_checking_close() {
-    let t00 = tasks();
-    let hole = UdpSocket::bind("127.0.0.1:0").await.unwrap();
-    let a = PeerConnection::new(cfg(TransportMode::WebRtc));
-    let b = PeerConnection::new(cfg(TransportMode::WebRtc));
-    let dca = a.create_data_channel("neg", Some(dc_cfg())).unwrap();
-    let _dcb = b.create_data_channel("neg", Some(dc_cfg())).unwrap();
-    let offer = local_offer(&a).await;
-    b.set_remote_description(offer).await.unwrap();
-    let answer = local_answer(&b).await;
-    println!("  tasks with A+B = {}", tasks());
-    b.close();
-    drop(b); drop(_dcb);
-    tokio::time::sleep(Duration::from_millis(300)).await;
-    println!("  tasks after B closed+dropped = {}", tasks());
-    let answer = rewrite_port(&answer, SdpType::Answer, hole.local_addr().unwrap());
-    a.set_remote_description(answer).await.unwrap();
-    tokio::time::sleep(Duration::from_millis(300)).await;
-    println!("[checking] A {:?} tasks={}", obs(&a), tasks());
-    a.close();
-    println!("     after close {:?}", obs(&a));
-    let (r, d) = timed(dca.recv(), Duration::from_secs(1)).await;
-    println!("     dc.recv after close at checking: {:?} {:?}", r.map(|e| format!("{:?}", e)), d);
-    tokio::time::sleep(Duration::from_millis(300)).await;
-    println!("     tasks={}", tasks());
-    let ice = a.ice_transport();
-    drop(a); drop(dca);
-    let d = wait_until(|| tasks() <= t00, Duration::from_secs(8)).await;
-    println!("     after drop tasks {} settled={:?} ice transport state now {:?}", tasks(), d, ice.state());
-}
-
-async fn x_blocked() {
-    use vh::sctp_peer::{Uut, UutOpts};
-    for ev in ["abort", "shutdown_ack", "close", "dtls_close_notify"] {
-        let mut c = RtcConfiguration::default();
-        c.sctp_max_buffered_amount = 4096;
-        let dcc = DataChannelConfig { label: "x".into(), negotiated: Some(0), ordered: true, ..Default::default() };
-        let u = Uut::start(UutOpts { config: c, channels: vec![(0, dcc)], peer_rwnd: 1500, ..Default::default() }).await;
-        let sctp = u.sctp.clone();
-        let sender = tokio::spawn(async move {
-            let t0 = Instant::now();
-            let mut n = 0;
+        Some(tokio::spawn(async move { let _ = pa.wait_for_connected().await; }))
+    } else { None };
+    // a sender parked on a full window
+    let mut sender_task = None;
+    if ev.blocked() {
+        if let Some(r) = &s.relay { r.mode.store(3, Ordering::SeqCst); }
+        let pa = a.clone();
+        let progress = Arc::new(Mutex::new(Instant::now()));
+        let p2 = progress.clone();
+        sender_task = Some(tokio::spawn(async move {
+            let mut n = 0usize;
             loop {
-                match sctp.send_data(0, &[7u8; 1000]).await { Ok(()) => n += 1, Err(e) => return (n, e.to_string(), t0.elapsed()) }
-                if n > 10000 { return (n, "never blocked".into(), t0.elapsed()); }
+                *p2.lock().unwrap() = Instant::now();
+                match pa.send_data(0, &[7u8; 1000]).await { Ok(()) => n += 1, Err(e) => return (n, e.to_string()) }
+                if n > 100_000 { return (n, "never blocked".into()); }
             }
-        });
-        tokio::time::sleep(Duration::from_millis(300)).await;
-        println!("[blocked {}] sender finished before event: {} buffered={}", ev, sender.is_finished(), u.sctp.buffered_amount());
-        let t0 = Instant::now();
-        match ev {
-            "abort" => u.inject_chunks(&[Chunk { ty: 6, flags: 0, value: vec![] }]),
-            "shutdown_ack" => u.inject_chunks(&[Chunk { ty: 8, flags: 0, value: vec![] }]),
-            "close" => u.sctp.close(),
-            _ => u.pair.server.dtls.close(),
-        }
-        let r = tokio::time::timeout(Duration::from_secs(2), sender).await;
-        println!("     sender -> {:?} after {:?}; close_reason={:?}", r.map(|x| x.ok()), t0.elapsed(), u.sctp.close_reason());
-        let evs = Uut::channel_events(&u.strong[0], Duration::from_millis(100)).await;
-        println!("     channel events {:?}", evs.iter().map(|e| match e { DataChannelEvent::Open => "Open", DataChannelEvent::Close => "Close", _ => "Msg" }).collect::<Vec<_>>());
+        }));
+        // parked = no progress for 150 ms
+        let _ = wait_until(|| progress.lock().unwrap().elapsed() > Duration::from_millis(150), Duration::from_secs(3)).await;
     }
+    tokio::time::sleep(Duration::from_millis(sc.jitter_ms)).await;
+    out.before = Some(s.wa.obs());
+    out.tasks_before_event = tasks();
+    // ------------------------------------------------------------------ the event
+    let t_event = Instant::now();
+    let mut a_opt = Some(a);
+    {
+        let a = a_opt.as_ref().unwrap();
+        match ev {
+            Ev::Close | Ev::BlockedThenClose => a.close(),
+            Ev::Drop => {}
+            Ev::CloseTwice => { a.close(); a.close(); }
+            Ev::CloseThenDrop => a.close(),
+            Ev::CloseNotify | Ev::BlockedThenCloseNotify => {
+                if let Some(d) = s.b.as_ref().and_then(|b| b.verif_dtls_transport()) { d.close(); } else { out.notes.push("peer has no DTLS transport".into()); }
+            }
+            Ev::Abort | Ev::BlockedThenAbort => { if !inject_sctp(s.b.as_ref().unwrap(), 6).await { out.notes.push("inject failed".into()); } }
+            Ev::ShutdownAck => { inject_sctp(s.b.as_ref().unwrap(), 8).await; }
+            Ev::ShutdownAlone => { inject_sctp(s.b.as_ref().unwrap(), 7).await; }
+            Ev::ShutdownThenComplete => {
+                inject_sctp(s.b.as_ref().unwrap(), 7).await;
+                tokio::time::sleep(Duration::from_millis(150)).await;
+                inject_sctp(s.b.as_ref().unwrap(), 14).await;
+            }
+            Ev::IceStop => a.ice_transport().stop(),
+            Ev::IceStopThenClose => {
+                a.ice_transport().stop();
+                let w = &s.wa;
+                let _ = wait_until(|| w.obs().peer != PeerConnectionState::Connected, Duration::from_secs(2)).await;
+                tokio::time::sleep(Duration::from_millis(150)).await;
+                a.close();
+            }
+            Ev::PeerClose => { if let Some(b) = &s.b { b.close(); } }
+            Ev::PeerDrop => { s.b = None; s.dcb = None; }
+            Ev::RaceCloseNotify | Ev::RaceCloseAbort | Ev::RaceCloseClose => {
+                let a2 = a.clone();
+                let b2 = s.b.clone();
+                let t1 = tokio::spawn(async move { a2.close(); });
+                let t2 = tokio::spawn(async move {
+                    match ev {
+                        Ev::RaceCloseNotify => { if let Some(d) = b2.as_ref().and_then(|b| b.verif_dtls_transport()) { d.close(); } }
+                        Ev::RaceCloseAbort => { if let Some(b) = &b2 { inject_sctp(b, 6).await; } }
+                        _ => {}
+                    }
+                });
+                if ev == Ev::RaceCloseClose { a.close(); }
+                let _ = t1.await;
+                let _ = t2.await;
+            }
+        }
+    }
+    if ev.drops_a() {
+        // the pending calls hold clones of the handle: a real drop needs them gone first
+        pending_recv.abort();
+        if let Some(p) = &pending_wait { p.abort(); }
+        if let Some(t) = &sender_task { t.abort(); }
+        tokio::time::sleep(Duration::from_millis(20)).await;
+        a_opt = None;
+        if sc.phase == Phase::DtlsHandshaking && ev == Ev::Drop {
+            // deferred: start_dtls holds its own reference until the handshake ends; let it end
+            tokio::time::sleep(Duration::from_millis(200)).await;
+            out.notes.push(format!("200 ms after dropping the last handle in mid-handshake A still reports {:?} (teardown deferred to the end of the handshake, at most the 30 s DTLS timeout)", s.wa.obs().peer));
+            if let Some(r) = &s.relay { r.mode.store(0, Ordering::SeqCst); }
+        }
+    }
+    // ------------------------------------------------------------------ settle: reported values stable
+    let mut last = s.wa.obs();
+    let mut last_c = cc(&s.ca);
+    let mut stable_since = Instant::now();
+    let want_end = ev.app_closed() || ev.lower_end();
+    loop {
+        tokio::time::sleep(Duration::from_millis(10)).await;
+        let now = s.wa.obs();
+        let now_c = cc(&s.ca);
+        if now != last || now_c != last_c { last = now; last_c = now_c; stable_since = Instant::now(); }
+        let ended = last.reason.is_some() && matches!(last.peer, PeerConnectionState::Disconnected | PeerConnectionState::Failed | PeerConnectionState::Closed);
+        let quiet = stable_since.elapsed() > Duration::from_millis(if want_end && !ended { 1500 } else { 300 });
+        if quiet || t_event.elapsed() > SETTLE_MAX { break; }
+    }
+    out.settle_ms = ms(t_event.elapsed());
+    out.after = Some(last.clone());
+    out.chan = cc(&s.ca);
+    // the parked sender
+    if let Some(t) = sender_task.take() {
+        if ev.drops_a() { out.sender = 0; } else {
+            let t0 = Instant::now();
+            match tokio::time::timeout(CALL_BOUND, t).await {
+                Ok(Ok((_n, e))) => { out.sender = if e == "never blocked" { 2 } else { 1 }; out.sender_latency_ms = Some(ms(t0.elapsed())); }
+                Ok(Err(_)) => { out.sender = 0; }
+                Err(_) => { out.sender = 3; }
+            }
+        }
+    }
+    // ------------------------------------------------------------------ calls after the event
+    if let Some(a) = a_opt.as_ref() {
+        let closed = last.peer == PeerConnectionState::Closed && last.sig == SignalingState::Closed;
+        let (r, d) = timed(a.send_data(0, b"x"), CALL_BOUND).await;
+        out.calls.push(("send_data".into(), r.map(|x| match x { Ok(()) => "Ok".to_string(), Err(e) => format!("Err({})", e) }), ms(d)));
+        let (r, d) = timed(a.create_offer(), CALL_BOUND).await;
+        out.calls.push(("create_offer".into(), r.map(|x| if x.is_ok() { "Ok".to_string() } else { "Err".to_string() }), ms(d)));
+        let (r, d) = timed(a.get_stats(), CALL_BOUND).await;
+        out.calls.push(("get_stats".into(), r.map(|x| if x.is_ok() { "Ok".to_string() } else { "Err".to_string() }), ms(d)));
+        if closed {
+            let (r, d) = timed(a.wait_for_gathering_complete(), CALL_BOUND).await;
+            out.calls.push(("wait_for_gathering_complete".into(), r.map(|_| "returned".to_string()), ms(d)));
+        }
+        if closed || last.peer == PeerConnectionState::Failed {
+            let (r, d) = timed(a.wait_for_connected(), CALL_BOUND).await;
+            out.calls.push(("wait_for_connected".into(), r.map(|x| if x.is_ok() { "Ok".to_string() } else { "Err".to_string() }), ms(d)));
+        }
+        if closed {
+            let fin = wait_until(|| pending_recv.is_finished(), CALL_BOUND).await;
+            out.calls.push(("pc.recv (pending since before the event)".into(), fin.map(|_| "returned".to_string()), fin.map(ms).unwrap_or(ms(CALL_BOUND))));
+            let (r, d) = timed(a.recv(), CALL_BOUND).await;
+            out.calls.push(("pc.recv".into(), r.map(|x| if x.is_some() { "Some".to_string() } else { "None".to_string() }), ms(d)));
+            if let Some(p) = &pending_wait {
+                let fin = wait_until(|| p.is_finished(), CALL_BOUND).await;
+                out.calls.push(("wait_for_connected (pending since before the event)".into(), fin.map(|_| "returned".to_string()), fin.map(ms).unwrap_or(ms(CALL_BOUND))));
+            }
+            if let Some(ca) = &s.ca {
+                let fin = wait_until(|| ca.ended.load(Ordering::SeqCst) == 1, CALL_BOUND).await;
+                out.calls.push(("dc.recv (pending since before the event) -> None".into(), fin.map(|_| "returned".to_string()), fin.map(ms).unwrap_or(ms(CALL_BOUND))));
+            }
+            if let Some(dc) = &s.dca {
+                let (r, d) = timed(dc.recv(), CALL_BOUND).await;
+                out.calls.push(("dc.recv after close".into(), r.map(|x| if x.is_some() { "Some".to_string() } else { "None".to_string() }), ms(d)));
+            }
+        }
+    }
+    pending_recv.abort();
+    if let Some(p) = &pending_wait { p.abort(); }
+    // ------------------------------------------------------------------ final close + drop of everything, release
+    let t_rel = Instant::now();
+    if let Some(a) = a_opt.take() { a.close(); drop(a); }
+    if let Some(b) = s.b.take() { b.close(); drop(b); }
+    if let Some(m) = s.media.take() { m.abort(); }
+    tokio::time::sleep(Duration::from_millis(60)).await;
+    out.final_obs = Some(s.wa.obs());
+    out.chan_final = cc(&s.ca);
+    for h in &s.hs { h.abort(); }
+    let ports = s.ports.clone();
+    drop(s);
+    let rel = wait_until(|| tasks() == 0, RELEASE_BOUND).await;
+    out.tasks_after_release = tasks();
+    out.release_ms = rel.map(|_| ms(t_rel.elapsed()));
+    let bound_deadline = Instant::now() + Duration::from_secs(2);
+    loop {
+        let bound = udp_ports_bound();
+        out.ports_still_bound = ports.iter().copied().filter(|p| bound.contains(p)).collect();
+        if out.ports_still_bound.is_empty() || Instant::now() > bound_deadline { break; }
+        tokio::time::sleep(Duration::from_millis(50)).await;
+    }
+    out
 }
 
-async fn x_ice_stop() {
-    let p = connected_pair(PairOpts::default).await;
-    p.a.ice_transport().stop();
-    tokio::time::sleep(Duration::from_millis(500)).await;
-    println!("[ice_stop] A {:?} chanA {} tasks {}", obs(&p.a), cc(&p.ca), tasks());
-    p.a.close();
-    tokio::time::sleep(Duration::from_millis(300)).await;
-    println!("     then close: A {:?} chanA {} tasks {}", obs(&p.a), cc(&p.ca), tasks());
-    let (r, d) = timed(p.a.send_data(0, b"x"), Duration::from_secs(2)).await;
-    println!("     send_data -> {:?} {:?}", r.map(|x| x.map_err(|e| e.to_string())), d);
-    p.b.close();
-    let Pair { a, b, hs, dca, dcb, ca, cb, .. } = p;
-    for h in hs { h.abort(); }
-    drop(a); drop(b); drop(dca); drop(dcb); drop(ca); drop(cb);
-    let d = wait_until(|| tasks() == 0, Duration::from_secs(3)).await;
-    println!("     after drop tasks {} settled={:?}", tasks(), d);
+// ------------------------------------------------------------------------------------ rendering + oracle
+fn peer_term(p: PeerConnectionState) -> String { format!("PeerConnectionState_{:?}", p) }
+fn ice_term(p: IceConnectionState) -> String { format!("IceConnectionState_{:?}", p) }
+fn sig_term(p: SignalingState) -> String { format!("SignalingState_{:?}", p) }
+fn reason_name(r: &DisconnectReason) -> String {
+    let s = format!("{:?}", r);
+    s.split('(').next().unwrap().to_string()
+}
+fn reason_term(r: &Option<DisconnectReason>) -> String {
+    match r { None => "None".into(), Some(r) => format!("(Some DisconnectReason_{})", reason_name(r)) }
 }
 
-async fn x_rtp() {
-    for ev in ["close", "drop", "peer_close"] {
-        let p = make_pair(PairOpts { mode: TransportMode::Rtp, dc: false, media: true, ..Default::default() }).await;
-        let ok = wait_connected(&p).await;
-        println!("[rtp {}] connected={} A {:?} tasks {}", ev, ok, obs(&p.a), tasks());
-        let Pair { a, b, .. } = p;
-        match ev {
-            "close" => { a.close(); println!("     A {:?}", obs(&a)); }
-            "peer_close" => { b.close(); tokio::time::sleep(Duration::from_millis(500)).await; println!("     A {:?}", obs(&a)); }
-            _ => {}
-        }
-        b.close();
-        drop(a); drop(b);
-        let d = wait_until(|| tasks() == 0, Duration::from_secs(3)).await;
-        println!("     after drop tasks {} settled={:?}", tasks(), d);
+/// (model term, oracle verdict, description, usable)
+fn judge(sc: &Scenario, o: &Outcome) -> (String, Option<String>, serde_json::Value, bool) {
+    let mut fails: Vec<String> = vec![];
+    let desc_base = json!({"phase": format!("{:?}", sc.phase), "event": format!("{:?}", sc.ev), "jitter_ms": sc.jitter_ms});
+    if let Some(e) = &o.setup_failed {
+        return ("-".into(), None, json!({"scenario": desc_base, "setup_failed": e}), false);
     }
+    let after = o.after.clone().unwrap();
+    let fin = o.final_obs.clone().unwrap();
+    let ev = sc.ev;
+    // O1: the application closed or dropped it
+    if ev.app_closed() {
+        if !(after.peer == PeerConnectionState::Closed && after.sig == SignalingState::Closed && after.ice == IceConnectionState::Closed && after.reason.is_some()) {
+            fails.push(format!("after {:?} the connection reports {:?} (want Closed/Closed/Closed + reason)", ev, after));
+        }
+    }
+    // O2: a lower layer ended it
+    if ev.lower_end() {
+        let ended = after.reason.is_some() && matches!(after.peer, PeerConnectionState::Disconnected | PeerConnectionState::Failed | PeerConnectionState::Closed);
+        if !ended { fails.push(format!("{:?} left the connection reporting {:?} after {} ms (no terminal state / no reason)", ev, after, o.settle_ms)); }
+    }
+    // O5: the reason does not change; the final close ends in Closed
+    if let Some(r) = &after.reason { if fin.reason.as_ref() != Some(r) { fails.push(format!("disconnect reason changed from {:?} to {:?}", r, fin.reason)); } }
+    if let Some(b) = &o.before { if let Some(r) = &b.reason { if after.reason.as_ref() != Some(r) { fails.push(format!("disconnect reason changed from {:?} to {:?}", r, after.reason)); } } }
+    if !(fin.peer == PeerConnectionState::Closed && fin.sig == SignalingState::Closed && fin.reason.is_some()) {
+        fails.push(format!("after the final close() the connection reports {:?}", fin));
+    }
+    // O3: channels
+    if let Some((opens, closes, ended)) = o.chan {
+        if closes > 1 { fails.push(format!("channel observed {} Close events", closes)); }
+        if opens > 1 { fails.push(format!("channel observed {} Open events", opens)); }
+        if ev.ends_assoc() && closes != 1 {
+            fails.push(format!("channel of an ended connection observed {} Close events (want exactly 1) after {:?}", closes, ev));
+        }
+        if ev.app_closed() && ended != 1 { fails.push("channel event stream did not end after close()".into()); }
+    }
+    if let Some((_, closes, ended)) = o.chan_final {
+        if closes != 1 { fails.push(format!("after the final close() the channel has observed {} Close events (want exactly 1)", closes)); }
+        if ended != 1 { fails.push("after the final close() the channel event stream has not ended".into()); }
+    }
+    // O4: calls return
+    for (name, res, t) in &o.calls {
+        if res.is_none() { fails.push(format!("{} did not return within {} ms", name, t)); }
+        if name == "send_data" && ev.ends_assoc() && sc.phase.has_channel() {
+            if res.as_deref() == Some("Ok") { fails.push("send_data on a channel of an ended connection returned Ok".into()); }
+        }
+    }
+    if ev.blocked() && !ev.drops_a() && o.sender != 1 {
+        fails.push(format!("sender parked on a full window {} after the association died ({:?})", match o.sender { 3 => "is still parked", 2 => "never blocked (scenario invalid)", _ => "vanished" }, ev));
+    }
+    // O6: release
+    if o.tasks_after_release != 0 {
+        fails.push(format!("{} task(s) of the connection pair still alive {} ms after the final close + drop", o.tasks_after_release, ms(RELEASE_BOUND)));
+    }
+    if !o.ports_still_bound.is_empty() { fails.push(format!("UDP ports {:?} still bound after the final close + drop", o.ports_still_bound)); }
+    // ------------------------------------------------------------------ model term
+    let chans = match o.chan { Some((op, cl, en)) => format!("[({}, {}, {})]", op, cl, if en == 1 { "true" } else { "false" }), None => "[]".into() };
+    let term = format!("mkCase {} {} {} {} {} {} {} {}", sc.phase.model(), ev.threads(sc.phase), peer_term(after.peer), ice_term(after.ice), sig_term(after.sig),
+        reason_term(&after.reason), chans, o.sender);
+    let desc = json!({
+        "scenario": desc_base,
+        "model": {"phase": sc.phase.model(), "threads": ev.threads(sc.phase)},
+        "before": format!("{:?}", o.before), "after_event": format!("{:?}", after), "after_final_close": format!("{:?}", fin),
+        "channel(open,close,ended)": format!("{:?}", o.chan), "channel_final": format!("{:?}", o.chan_final),
+        "parked_sender": match o.sender { 0 => "none", 1 => "returned Err", 2 => "returned Ok", _ => "still parked" },
+        "sender_release_ms": o.sender_latency_ms,
+        "calls": o.calls.iter().map(|(n, r, t)| json!({"call": n, "result": r, "ms": t})).collect::<Vec<_>>(),
+        "settle_ms": o.settle_ms, "tasks_before_event": o.tasks_before_event, "tasks_after_release": o.tasks_after_release,
+        "release_ms": o.release_ms, "udp_ports": o.ports, "udp_ports_still_bound": o.ports_still_bound, "notes": o.notes,
+    });
+    let fail = if fails.is_empty() { None } else { Some(fails.join("; ")) };
+    (term, fail, desc, true)
+}
+
+// ------------------------------------------------------------------------------------ SCTP-level cases (scripted peer)
+/// the association alone (real SctpTransport on real DTLS, the harness is the SCTP peer): a sender parked on a
+/// zero window when the association dies, per cause; oracle only (there is no PeerConnection to compare).
+async fn uut_case(cause: &'static str) -> (serde_json::Value, Option<String>) {
+    use vh::sctp_peer::{Uut, UutOpts};
+    let mut c = RtcConfiguration::default();
+    c.sctp_max_buffered_amount = 4096;
+    let dcc = DataChannelConfig { label: "x".into(), negotiated: Some(0), ordered: true, ..Default::default() };
+    let dcc2 = DataChannelConfig { label: "y".into(), negotiated: Some(1), ordered: true, ..Default::default() };
+    let u = Uut::start(UutOpts { config: c, channels: vec![(0, dcc), (1, dcc2)], peer_rwnd: 1500, ..Default::default() }).await;
+    let sctp = u.sctp.clone();
+    let sender = tokio::spawn(async move {
+        let mut n = 0;
+        loop {
+            match sctp.send_data(0, &[7u8; 1000]).await { Ok(()) => n += 1, Err(e) => return (n, e.to_string()) }
+            if n > 100_000 { return (n, "never blocked".into()); }
+        }
+    });
+    tokio::time::sleep(Duration::from_millis(250)).await;
+    let parked = !sender.is_finished();
+    let t0 = Instant::now();
+    match cause {
+        "abort" => u.inject_chunks(&[Chunk { ty: 6, flags: 0, value: vec![] }]),
+        "shutdown_ack" => u.inject_chunks(&[Chunk { ty: 8, flags: 0, value: vec![] }]),
+        "shutdown_complete" => {
+            u.inject_chunks(&[Chunk { ty: 7, flags: 0, value: vec![] }]);
+            tokio::time::sleep(Duration::from_millis(50)).await;
+            u.inject_chunks(&[Chunk { ty: 14, flags: 0, value: vec![] }])
+        }
+        "local_close" => u.sctp.close(),
+        "close_twice" => { u.sctp.close(); u.sctp.close(); }
+        _ => u.pair.server.dtls.close(), // peer DTLS close_notify
+    }
+    let r = tokio::time::timeout(CALL_BOUND, sender).await;
+    let lat = ms(t0.elapsed());
+    let mut fails = vec![];
+    let res = match &r { Ok(Ok((_, e))) => e.clone(), Ok(Err(_)) => "sender task failed".into(), Err(_) => "STILL PARKED".into() };
+    if !parked { fails.push("sender never parked (scenario invalid)".to_string()); }
+    if r.is_err() { fails.push(format!("sender parked on a zero window did not return within {} ms after {}", ms(CALL_BOUND), cause)); }
+    let mut per_chan = vec![];
+    for dc in &u.strong {
+        let evs = Uut::channel_events(dc, Duration::from_millis(150)).await;
+        let closes = evs.iter().filter(|e| matches!(e, DataChannelEvent::Close)).count();
+        let opens = evs.iter().filter(|e| matches!(e, DataChannelEvent::Open)).count();
+        if closes != 1 { fails.push(format!("channel {} observed {} Close events after {} (want exactly 1)", dc.id, closes, cause)); }
+        per_chan.push(json!({"id": dc.id, "opens": opens, "closes": closes}));
+    }
+    // none afterwards: a later local close must not announce again
+    u.sctp.close();
+    for dc in &u.strong {
+        let evs = Uut::channel_events(dc, Duration::from_millis(60)).await;
+        if evs.iter().any(|e| matches!(e, DataChannelEvent::Close)) { fails.push(format!("channel {} observed another Close after the association had ended", dc.id)); }
+    }
+    let reason = u.sctp.close_reason();
+    let (r2, d2) = timed(u.sctp.send_data(0, b"late"), CALL_BOUND).await;
+    match r2 { None => fails.push("send_data after the end did not return".into()), Some(Ok(())) => fails.push("send_data after the end returned Ok".into()), _ => {} }
+    let desc = json!({"sctp_level": cause, "sender": res, "sender_release_ms": lat, "close_reason": reason, "channels": per_chan, "send_after_end_ms": ms(d2)});
+    (desc, if fails.is_empty() { None } else { Some(fails.join("; ")) })
+}
+
+// ------------------------------------------------------------------------------------ main
+fn scenarios(tier: &str, seed: u64) -> Vec<Scenario> {
+    use Ev::*;
+    use Phase::*;
+    let table: Vec<(Phase, Vec<Ev>)> = vec![
+        (Created, vec![Close, Drop, CloseTwice, CloseThenDrop]),
+        (Gathering, vec![Close, Drop]),
+        (OfferSet, vec![Close, Drop, CloseTwice]),
+        (Checking, vec![Close, Drop, CloseThenDrop]),
+        (DtlsHandshaking, vec![Close, Drop, CloseTwice, IceStop, RaceCloseClose]),
+        (DtlsConnected, vec![Close, Drop, CloseNotify, IceStop, PeerClose, RaceCloseNotify]),
+        (ChannelsOpen, vec![Close, Drop, CloseTwice, CloseThenDrop, CloseNotify, Abort, ShutdownAck, ShutdownThenComplete, ShutdownAlone, IceStop,
+                            IceStopThenClose, PeerClose, PeerDrop, RaceCloseNotify, RaceCloseAbort, RaceCloseClose, BlockedThenClose, BlockedThenAbort, BlockedThenCloseNotify]),
+        (MediaFlowing, vec![Close, Drop, CloseNotify, Abort, RaceCloseNotify]),
+        (RtpCreated, vec![Close, Drop]),
+        (RtpFlowing, vec![Close, Drop, CloseTwice, IceStop, IceStopThenClose, PeerClose]),
+    ];
+    let mut v = vec![];
+    for (p, evs) in &table { for e in evs { v.push(Scenario { phase: *p, ev: *e, jitter_ms: 0, kind: "exhaustive" }); } }
+    // the same table again at random moments after the phase boundary ("at any moment")
+    let mut rng = vh::Rng::new(seed);
+    let rounds = if tier == "thorough" { 6 } else { 1 };
+    for _ in 0..rounds {
+        for (p, evs) in &table {
+            for e in evs {
+                if tier != "thorough" && !rng.chance(1, 2) { continue; }
+                v.push(Scenario { phase: *p, ev: *e, jitter_ms: rng.range(1, 40), kind: "random-moment" });
+            }
+        }
+    }
+    v
 }
 
 fn main() {
-    let which: Vec<String> = std::env::args().skip(1).collect();
+    let args = vh::parse_args();
+    vh::silence_panics();
+    let scs = scenarios(&args.tier, args.seed);
+    let n = scs.len();
+    let queue = Arc::new(Mutex::new(scs.iter().cloned().enumerate().rev().collect::<Vec<_>>()));
+    let results: Arc<Mutex<Vec<(usize, Outcome)>>> = Arc::new(Mutex::new(vec![]));
+    let workers = std::env::var("C17_WORKERS").ok().and_then(|s| s.parse().ok()).unwrap_or(6usize);
+    let mut hs = vec![];
+    for _ in 0..workers {
+        let queue = queue.clone();
+        let results = results.clone();
+        hs.push(std::thread::spawn(move || loop {
+            let item = { queue.lock().unwrap().pop() };
+            let Some((i, sc)) = item else { break };
+            let rt = tokio::runtime::Builder::new_multi_thread().worker_threads(2).enable_all().build().unwrap();
+            let sc2 = sc.clone();
+            let o = match vh::catch(std::panic::AssertUnwindSafe(|| rt.block_on(run_scenario(sc2)))) {
+                Ok(o) => o,
+                Err(p) => Outcome { setup_failed: Some(format!("panic: {}", p)), panicked: true, ..Default::default() },
+            };
+            rt.shutdown_timeout(Duration::from_millis(200));
+            results.lock().unwrap().push((i, o));
+        }));
+    }
+    // SCTP-level cases on the main thread meanwhile
     let rt = tokio::runtime::Builder::new_multi_thread().worker_threads(2).enable_all().build().unwrap();
-    rt.block_on(async {
-        for w in &which {
-            match w.as_str() {
-                "peer" => x_peer_events().await,
-                "hs" => x_handshaking_close().await,
-                "checking" => x_checking_close().await,
-                "icestop" => x_ice_stop().await,
-                "rtp" => x_rtp().await,
-                "blocked" => x_blocked().await,
-                "rep" => { for i in 0..6 { let p = make_pair(PairOpts::default()).await; let ok = wait_connected(&p).await; println!("rep {} ok={} A {:?} B {:?} chanA {} chanB {} sd={:?}", i, ok, obs(&p.a), obs(&p.b), cc(&p.ca), cc(&p.cb), p.a.send_data(0,b"x").await.map_err(|e| e.to_string())); p.a.close(); p.b.close(); for h in &p.hs { h.abort(); } } }
-                _ => {}
-            }
+    let mut uut_results = vec![];
+    for cause in ["abort", "shutdown_ack", "shutdown_complete", "dtls_close_notify", "local_close", "close_twice"] {
+        uut_results.push(rt.block_on(uut_case(cause)));
+    }
+    rt.shutdown_timeout(Duration::from_millis(200));
+    for h in hs { let _ = h.join(); }
+    let mut res = std::mem::take(&mut *results.lock().unwrap());
+    res.sort_by_key(|(i, _)| *i);
+
+    let mut out = vh::Out::new(&args.out);
+    let mut setup_failed = 0usize;
+    let mut panics = 0usize;
+    let mut max_call_ms: f64 = 0.0;
+    let mut max_release_ms: f64 = 0.0;
+    let mut max_sender_ms: f64 = 0.0;
+    let mut per_phase: std::collections::BTreeMap<String, usize> = Default::default();
+    let mut per_event: std::collections::BTreeMap<String, usize> = Default::default();
+    for (desc, fail) in uut_results {
+        if let Some(l) = desc.get("sender_release_ms").and_then(|x| x.as_f64()) { max_sender_ms = max_sender_ms.max(l); }
+        out.push(vh::Case { term: "-".into(), key: desc.to_string(), desc, oracle_fail: fail, known: None, nontrivial: true, kind: "sctp-level".into() });
+    }
+    for (i, o) in &res {
+        let sc = &scs[*i];
+        let (term, fail, desc, ok) = judge(sc, o);
+        if !ok {
+            setup_failed += 1;
+            if o.panicked { panics += 1; }
+            // a scenario that could not be set up is not evidence; a panic inside the real code is a finding
+            let f = if o.panicked { Some(format!("panic while running the scenario: {:?}", o.setup_failed)) } else { None };
+            out.push(vh::Case { term, key: format!("setup-failed {:?} {:?} {}", sc.phase, sc.ev, sc.jitter_ms), desc, oracle_fail: f, known: None, nontrivial: false, kind: "setup-failed".into() });
+            continue;
         }
-    });
+        for (_, r, t) in &o.calls { if r.is_some() { max_call_ms = max_call_ms.max(*t); } }
+        if let Some(r) = o.release_ms { max_release_ms = max_release_ms.max(r); }
+        if let Some(l) = o.sender_latency_ms { max_sender_ms = max_sender_ms.max(l); }
+        *per_phase.entry(format!("{:?}", sc.phase)).or_default() += 1;
+        *per_event.entry(format!("{:?}", sc.ev)).or_default() += 1;
+        out.push(vh::Case { term, key: format!("{:?} {:?} {}", sc.phase, sc.ev, sc.jitter_ms), desc, oracle_fail: fail, known: None, nontrivial: true, kind: sc.kind.into() });
+    }
+    // more than a few scenarios that cannot be set up means the harness is not measuring anything
+    if setup_failed * 5 > n {
+        out.push(vh::Case { term: "-".into(), key: "setup".into(), desc: json!({"setup_failed": setup_failed, "of": n}),
+            oracle_fail: Some(format!("{} of {} scenarios could not be brought to their phase", setup_failed, n)), known: None, nontrivial: false, kind: "harness".into() });
+    }
+    out.finish(json!({"generator": {
+        "tier": args.tier, "seed": args.seed, "scenarios": n, "setup_failed": setup_failed, "panics": panics,
+        "phases": per_phase, "events": per_event,
+        "bounds_ms": {"call": ms(CALL_BOUND), "settle": ms(SETTLE_MAX), "release": ms(RELEASE_BOUND)},
+        "observed_max_ms": {"api_call_after_event": max_call_ms, "release_after_final_close_and_drop": max_release_ms, "parked_sender_release": max_sender_ms},
+        "exploration": "runtime part of C17 (task/socket release, promptness): phase x event table above, each scenario on its own tokio runtime; num_alive_tasks must reach 0 and every UDP port of the pair must be unbound after the final close + drop",
+    }}));
 }
